@@ -8,7 +8,7 @@
    with seeded random paths and SchemaPathTrace judges the recorded events.
    One initial state per shape so that all TLC workers are used.               *)
 EXTENDS SchemaPath, SchemaRand, Json, SequencesExt
-CONSTANTS Shapes, MaxLen, Ext, NRand, RandDepth
+CONSTANTS Shapes, MaxLen, Ext, FullTails, NRand, RandDepth
 VARIABLES shape, done
 
 V(sch, p, inc) == LET r == Rec(sch, p, inc) IN
@@ -25,5 +25,5 @@ GNext == /\ ~done /\ done' = TRUE /\ UNCHANGED shape
             THEN ndJsonSerialize("sprand.ndjson", RandSchemas(NRand))
             ELSE LET sch == PathShape(shape) IN
                  /\ ndJsonSerialize("sps_" \o Sfx(shape), <<[id |-> shape, kids |-> sch]>>)
-                 /\ ndJsonSerialize("spv_" \o Sfx(shape), SetToSeq({Vec(sch, p) : p \in PathsFor(sch, MaxLen, Ext)}))
+                 /\ ndJsonSerialize("spv_" \o Sfx(shape), SetToSeq({Vec(sch, p) : p \in PathsFor(sch, MaxLen, Ext, FullTails)}))
 =============================================================================
